@@ -62,7 +62,8 @@ def ground_axioms(fs):
     """Ground instances of the library axiom schemas for the terms that occur in the query (complete for the
     quantifier-free queries they are used in, and keeps counter-models available):
       clip(x,l,u):  all_le(l,u) => l <= clip <= u ;  l <= x <= u => clip == x          (np.clip without NaN)
-      dot(v,v) >= 0 ;  a,b >= 0 => fmul(a,b) >= 0                                      (IEEE signs without NaN)"""
+      dot(v,v) >= 0 ;  a,b >= 0 => fmul(a,b) >= 0                                      (IEEE signs without NaN)
+      dot(a-b, c-d) == dot(b-a, d-c)                                                   (exact negation)"""
     inst = []
     for t in _collect_apps(fs, {"clip", "dot", "fmul"}):
         nm = t.decl().name()
@@ -71,8 +72,13 @@ def ground_axioms(fs):
             le = z3.Function("all_le", x.sort(), x.sort(), z3.BoolSort())
             inst.append(z3.Implies(le(lo, hi), z3.And(le(lo, t), le(t, hi))))
             inst.append(z3.Implies(z3.And(le(lo, x), le(x, hi)), t == x))
-        elif nm == "dot" and t.num_args() == 2 and z3.eq(t.arg(0), t.arg(1)):
-            inst.append(t >= 0)
+        elif nm == "dot" and t.num_args() == 2:
+            a, b = t.arg(0), t.arg(1)
+            if z3.eq(a, b):
+                inst.append(t >= 0)
+            if z3.is_app(a) and z3.is_app(b) and a.decl().name() == "vsub" and b.decl().name() == "vsub":
+                # (a-b).(c-d) == (b-a).(d-c): IEEE negation is exact, the products and their sum are unchanged
+                inst.append(t == t.decl()(a.decl()(a.arg(1), a.arg(0)), b.decl()(b.arg(1), b.arg(0))))
         elif nm == "fmul" and t.num_args() == 2:
             inst.append(z3.Implies(z3.And(t.arg(0) >= 0, t.arg(1) >= 0), t >= 0))
     return inst
